@@ -29,8 +29,8 @@ Theorem C08_strict : forall clocks,
 Proof. exact gen_strict. Qed.
 Print Assumptions C08_strict.
 
-(* Under the SPECIFICATION's reading of an id (id / 2^32 seconds, which is what MessageID.Time
-   decodes since fix ad4102cfc) every generated id reads between 0 and 0.77 s BEFORE the
+(* Under the SPECIFICATION's reading of an id (id / 2^32 seconds, which is what the receive-side
+   window check mtproto.messageIDCreated decodes) every generated id reads between 0 and 0.77 s BEFORE the
    instant its low word encodes: the encoder writes nanoseconds where the protocol has 2^-32 s
    units.  So "close to the clock reading" holds within 0.77 s + 3 ns under that reading. *)
 Theorem C08_spec_reading : forall clocks,
